@@ -2,6 +2,7 @@
 from .. import runner, spec
 from ..harnesses import HStory, HItem, HMixed
 from ..monitors import mon_frame
+from .common import live_part
 
 RULE = ('Rich running orders (every story/item carries a unique nested subtree with attributes, mixed text and tails, '
         'markup-significant and non-BMP characters; a decoy story repeats the item IDs; two mosExternalMetadata blocks '
@@ -42,6 +43,7 @@ def run(tier):
             {'label': 'mixed-all-classes-depth1', 'harness': HMixed(rich=True, meta_subsets=3, init_shapes='all'), 'monitors': mon,
              'opts': {'max_depth': 1}},
         ]
+    parts.append(live_part(tier, mon))
     return runner.graph_check(
         'C03', tier, parts, rule=RULE, vacuity=vacuity,
         assumptions=['named/carried sets per message class as in DESIGN Appendix A',
